@@ -22,7 +22,11 @@ def is_adt_aggr(s, path):
 
 
 def analyse_build(ctx, F, crate, builder_adt, end_adt_path, end_kind, header_check, non_tag_fields=()):
-    """returns dict of results; emits obligations under rule BUILDER"""
+    """build() hands new_boxed a list of slices; SEQ (seq.py) evaluates that list to one description whichever way the code
+    assembles it (pushes under `if let`, loops, extend over Option/slice iterators, helper structs, array + flatten + collect):
+        [ if slot_i is Some { view(payload) } | for e in slot_j { view(e) } | view(end tag) ]
+    and the obligations are stated on that description."""
+    from .. import seq as SQ
     inst = F.find(impl_self_path=builder_adt["path"], name="build", impl_trait=None)
     if len(inst) != 1:
         ctx.fail("ANCHOR", "Builder::build", "Builder::build exists", "", "%d" % len(inst))
@@ -32,274 +36,95 @@ def analyse_build(ctx, F, crate, builder_adt, end_adt_path, end_kind, header_che
     b = A.body
     fields = {f["i"]: f for f in builder_adt["fields"]}
     tag_fields = {i: f for i, f in fields.items() if f["name"] not in non_tag_fields}
-    # ---- the whole list written as one array literal: `[slot.as_ref().map(view), .., Some(end view)].into_iter().flatten().collect()`
-    arr_form = array_form(ctx, F, A, tag_fields, end_adt_path, end_kind, header_check)
-    if arr_form is not None:
-        return dict(inst=inst, pushes=[], per_field={})
-    pushes = []
-    push_vecs = []
-    for bb, t in b.calls():
-        if (M.callee_path(t) or "").endswith("Vec::<T, A>::push"):
-            v = N(A.tb.operand(t["args"][1], (bb, len(b.stmts(bb)))))
-            pushes.append((bb, v))
-            push_vecs.append(A.tb.operand(t["args"][0], (bb, len(b.stmts(bb)))))
-    per_field = {}
-    end_pushes = []
-    other = []
-    loops = b.back_edges()
-    # ---- slot appended as `vec.extend(self.slot.iter().map(|tag| tag.as_bytes().as_ref()))`: Option::iter yields the payload
-    # iff the slot is set, slice iteration yields the elements in order, Vec::extend appends in iteration order (std contracts)
-    extends = {}
-    for bb, t in b.calls():
-        p = M.callee_path(t) or ""
-        if not (p.endswith("::extend") and ("Extend<" in p or "alloc::vec::Vec" in p)):
-            continue
-        at = (bb, len(b.stmts(bb)))
-        vecarg = A.tb.operand(t["args"][0], at)
-        itv = N(A.tb.operand(t["args"][1], at))
-        fi = None
-        shape = False
-        if itv[0] == "call" and ("Iterator>::map" in str(itv[1]) or cn(itv[1]).endswith("Iterator::map")) and len(itv[2]) == 2:
-            src_it, clo = itv[2]
-            base = src_it
-            kind_ = None
-            if base[0] == "call" and cn(base[1]) == "core::option::Option::iter" and len(base[2]) == 1:
-                kind_, base = "Option", base[2][0]
-            elif base[0] == "call" and cn(base[1]) == "core::slice::iter" and len(base[2]) == 1:
-                kind_, base = "Vec", base[2][0]
-                if base[0] == "call" and len(base[2]) == 1 and "alloc::vec::Vec<" in str(base[1]) and str(base[1]).endswith("Deref>::deref"):
-                    base = base[2][0]
-            if kind_ and base[0] == "ref" and base[1][0] == "fld" and base[1][1] == arg(1):
-                fi = base[1][2]
-                from .. import select as SEL
-                cf = SEL.closure_fn(F, clo, inst)
-                if cf is not None:
-                    rt_c, _ = an.of(F, cf).ret()
-                    if rt_c is not None:
-                        cv = N(rt_c)
-                        shape = cv[0] == "fld" and cv[2] == 0 and cv[1][0] == "unwrap" and cv[1][1][0] == "call" and "BytesRef" in str(cv[1][1][1]) and "try_from" in str(cv[1][1][1]) \
-                            and cv[1][1][2][0][0] == "rawslice" and cv[1][1][2][0][2][0] == "sizeofval" and any(x == arg(2) or x == ("deref", arg(2)) for x in subterms(cv[1][1][2][0][1]))
-                extends.setdefault(fi, []).append((bb, kind_, shape, vecarg))
-        if fi is None:
-            other.append((bb, itv))
-        else:
-            push_vecs.append(vecarg)
-    for (bb, v) in pushes:
-        subs = subterms(v)
-        ks = {s[2] for s in subs if len(s) == 3 and s[0] == "fld" and s[1] == arg(1)}
-        is_end = any(is_adt_aggr(s, end_adt_path) for s in subs)
-        # the pushed slice must be the byte view of the whole tag: as_bytes() = BytesRef over (ptr(tag), size_of_val(tag))
-        shape_ok = v[0] == "fld" and v[2] == 0 and v[1][0] == "unwrap" and v[1][1][0] == "call" and "BytesRef" in str(v[1][1][1]) and "try_from" in str(v[1][1][1]) \
-            and v[1][1][2][0][0] == "rawslice" and v[1][1][2][0][2][0] == "sizeofval"
-        if is_end and not ks:
-            end_pushes.append((bb, v, shape_ok))
-        elif len(ks) == 1:
-            per_field.setdefault(next(iter(ks)), []).append((bb, v, shape_ok))
-        else:
-            other.append((bb, v))
-    # ---- nothing else may touch the vector between the appends and new_boxed (sort, reverse, dedup, retain, swap, truncate...)
-    def root_local(op):
-        """local a reference operand ultimately points into (through moves and reborrows), or None"""
-        pl = op.get("m") or op.get("c")
-        if pl is None:
-            return None
-        L = pl["l"]
-        for _ in range(12):
-            ds = [d for d in A.tb.defs.get(L, []) if not (d[3] and d[3][0] == "*")]
-            if len(ds) > 1 and all(d[0] == "stmt" for d in ds):
-                # copies of one statement (THREAD duplicates straight-line blocks): same right-hand side everywhere
-                rvs = [b.stmts(d[1])[d[2]].get("rv") for d in ds]
-                if all(r == rvs[0] for r in rvs):
-                    ds = ds[:1]
-            if len(ds) != 1 or ds[0][0] != "stmt":
-                return L
-            st = b.stmts(ds[0][1])[ds[0][2]]
-            if st["k"] != "assign":
-                return L
-            rv = st["rv"]
-            if rv["k"] in ("ref", "rawptr"):
-                L = rv["pl"]["l"]
-                if rv["pl"].get("p") and rv["pl"]["p"][0] == "*":
-                    continue
-                return L
-            if rv["k"] == "use":
-                p2 = rv["op"].get("m") or rv["op"].get("c")
-                if p2 is None:
-                    return L
-                L = p2["l"]
-                continue
-            return L
-        return L
-    vec_locals = set()
-    for bb, t in b.calls():
-        p = M.callee_path(t) or ""
-        if p.endswith("Vec::<T, A>::push") or (p.endswith("::extend") and ("Extend<" in p or "alloc::vec::Vec" in p)):
-            vec_locals.add(root_local(t["args"][0]))
-    vec_locals.discard(None)
-    if vec_locals:
-        allowed = ("::push", "::extend", "::as_slice", "Deref>::deref", "::len", "::capacity", "::is_empty")
-        touching = []
-        for bb, t in b.calls():
-            p = M.callee_path(t) or ""
-            if p.endswith(allowed) or "drop_in_place" in p:
-                continue
-            if any(root_local(a) in vec_locals for a in t["args"]):
-                touching.append((bb, p))
-        ctx.check(not touching and len(vec_locals) == 1, "BUILDER", "build:vec-untouched", "all slices are appended to one vector, and between the appends and new_boxed "
-                  "nothing reorders, removes or rewrites them (the vector is only pushed/extended and finally viewed)", A.site(touching[0][0]) if touching else A.site(),
-                  how="every call taking the vector is push / extend / as_slice", why="vectors %s; other uses: %s" % (sorted(vec_locals), [x[1][:80] for x in touching]))
-    ctx.check(not other, "BUILDER", "build:foreign-push", "every push in build() is the byte view of one builder slot or of the end tag", A.site(),
-              how="%d pushes" % len(pushes), why="unattributed pushes: %s" % [G.show(o[1])[:80] for o in other])
-    # coverage: set of pushed fields == set of tag-carrying fields, one site each
-    for i, f in sorted(tag_fields.items()):
-        ps = per_field.get(i, [])
-        ok = len(ps) == 1 and ps[0][2]
-        why = "%d push sites" % len(ps)
-        how = ""
-        if not ps and len(extends.get(i, [])) == 1:
-            ebb, kind_, shape, _v = extends[i][0]
-            fty = F.ty(f["ty"]) or {}
-            uncond = all(b.dominates(ebb, r) for r in b.return_blocks) and not any(ebb in b.loop_blocks(h, t) for (t, h) in loops)
-            ok = shape and uncond and fty.get("adt_name") == kind_
-            how = "extend(self.%s.iter().map(as_bytes view)), executed exactly once" % f["name"]
-            why = "closure yields the as_bytes view=%s unconditional=%s slot kind %s/%s" % (shape, uncond, fty.get("adt_name"), kind_)
-            ps = [(ebb, None, shape)]
-        elif ok:
-            bb, v, _ = ps[0]
-            fty = F.ty(f["ty"]) or {}
-            facts = [N(x) for x in A.g.facts_at(bb)]
-            is_vec = fty.get("adt_name") == "Vec"
-            src = ("ref", fld(arg(1), i))
-            if is_vec:
-                # forward loop over &self.field: item = payload of Iterator::next(&mut into_iter(&self.field)), push inside that loop, once per iteration
-                nexts = [s for s in subterms(v) if len(s) >= 3 and s[0] == "call" and "core::slice::iter::Iter<" in str(s[1]) and "Iterator>::next" in str(s[1])]
-                def forward_iter_over(t):
-                    """forward iteration over the whole Vec slot: into_iter / iter of &self.slot or of its slice view"""
-                    t = t[1] if t[0] == "ref" else t
-                    seen_iter = False
-                    for _ in range(6):
-                        if t[0] == "call" and len(t[2]) == 1 and ("IntoIterator" in str(t[1]) and "into_iter" in str(t[1]) or cn(t[1]) == "core::slice::iter"):
-                            seen_iter = True
-                            t = t[2][0]
-                        elif t[0] == "call" and len(t[2]) == 1 and (cn(t[1]) in ("alloc::vec::Vec::as_slice",) or "alloc::vec::Vec<" in str(t[1]) and str(t[1]).endswith(("Deref>::deref", "AsRef<[T]>>::as_ref"))):
-                            t = t[2][0]
-                        else:
-                            break
-                    return seen_iter and t == src
-                it_ok = bool(nexts) and all(forward_iter_over(n_[2][0]) for n_ in nexts)
-                inloop = [(t, h) for (t, h) in loops if bb in b.loop_blocks(h, t)]
-                once = len(inloop) == 1 and b.dominates(bb, inloop[0][0])
-                guard = any(x[0] == "cmp" and x[1] == "Eq" and x[2][0] == "discr" and x[2][1] in nexts and x[3] == ("c", 1) for x in facts)
-                ok = it_ok and once and guard
-                how = "loop over &self.%s, one push per element in iteration (= insertion) order" % f["name"]
-                why = "iterator ok=%s once per iteration=%s guard=%s" % (it_ok, once, guard)
-            else:
-                # `if let Some(tag) = self.slot.as_ref()` / `= &self.slot` / match: after INLINE all are a test of the slot's discriminant
-                slot = fld(arg(1), i)
-                guard = CH.guarded_by_variant(facts, slot, 1)
-                nearest = N_nearest(A, bb)
-                own_ok = len(nearest) == 1 and CH.is_discr_fact(nearest[0], slot, 1)
-                # and the pushed bytes are those of the slot's payload
-                guard = guard and any(s == CH.payload_of(slot, 1) or s == ("dc", slot, 1) for s in subterms(v))
-                not_in_loop = not any(bb in b.loop_blocks(h, t) for (t, h) in loops)
-                ok = guard and own_ok and not_in_loop
-                how = "pushed exactly when self.%s is Some (own guard = Some-test of the same slot)" % f["name"]
-                why = "some-guard=%s nearest-guard-is-it=%s outside loops=%s" % (guard, own_ok, not_in_loop)
-        ctx.check(ok, "BUILDER", "slot:" + f["name"], "slot `%s` is appended by exactly one push of the tag's as_bytes() view - %s" %
-                  (f["name"], "once per element in order" if (F.ty(f["ty"]) or {}).get("adt_name") == "Vec" else "iff it is set"), A.site(ps[0][0]) if ps else A.site(), how=how, why=why)
-    extra = set(per_field) - set(tag_fields)
-    ctx.check(not extra, "BUILDER", "build:non-slot", "no non-tag field is pushed", A.site(), how="none", why=str(extra))
-    # end tag
-    ok_end = len(end_pushes) == 1 and end_pushes[0][2]
-    why = "%d end-tag pushes" % len(end_pushes)
-    if ok_end:
-        ebb = end_pushes[0][0]
-        rets = b.return_blocks
-        dom = all(b.dominates(ebb, r) for r in rets)
-        after = [bb for (bb, _) in pushes if bb != ebb and b.dominates(ebb, bb)]
-        inloop = any(ebb in b.loop_blocks(h, t) for (t, h) in loops)
-        # all other pushes come before: end push is not dominated by... every other push block must not be reachable after ebb
-        reach_after = reachable_from(b, ebb)
-        later = [bb for (bb, _) in pushes if bb != ebb and bb in reach_after] + [x[0] for v in extends.values() for x in v if x[0] in reach_after]
-        ok_end = dom and not later and not inloop
-        why = "dominates return=%s pushes reachable after it=%s in loop=%s" % (dom, later, inloop)
-    ctx.check(ok_end, "BUILDER", "end-tag", "the end tag (%s) is pushed exactly once, on every path to the return, and no push can follow it" % end_kind, A.site(),
-              how="single push dominating the return, nothing pushed afterwards", why=why)
-    # new_boxed(header, byte_refs.as_slice())
     rt, _ = A.ret()
     n = N(rt) if rt is not None else None
-    ok_nb = False
-    if n is not None and n[0] == "call" and cn(n[1]) == "multiboot2_common::boxed::new_boxed":
-        hdr, sl = n[2]
-        vec_ok = sl[0] == "call" and cn(sl[1]) in ("alloc::vec::Vec::as_slice",) and sl[2][0][0] == "ref" and sl[2][0][1][0] == "opq"
-        if not vec_ok and sl[0] == "call" and cn(sl[1]) in ("alloc::vec::Vec::as_slice",) and push_vecs:
-            # the vector lives inside a wrapper (newtype): it must be the very vector every push went to - compared as raw terms,
-            # which carry the creation site of `Vec::new()`
-            raw_ret = A.ret()[0]
-            rs = [x for x in subterms(raw_ret) if len(x) >= 3 and x[0] == "call" and cn(x[1]) == "alloc::vec::Vec::as_slice"]
-            vec_ok = len(rs) == 1 and all(pv == rs[0][2][0] or (pv[0] == "ref" and rs[0][2][0][0] == "ref" and pv[1] == rs[0][2][0][1]) for pv in push_vecs)
-        ok_nb = vec_ok and header_check(hdr)
-    ctx.check(ok_nb, "BUILDER", "new_boxed", "build() returns new_boxed(fresh header, the pushed slices in push order)", A.site(), how=G.show(rt)[:160], why=G.show(rt)[:300])
-    return dict(inst=inst, pushes=pushes, per_field=per_field)
+    nb = [(bb, t) for bb, t in b.calls() if cn(M.callee_path(t) or "") == "multiboot2_common::boxed::new_boxed"]
+    ok_nb = n is not None and n[0] == "call" and cn(n[1]) == "multiboot2_common::boxed::new_boxed" and len(nb) == 1 and header_check(n[2][0])
+    ctx.check(ok_nb, "BUILDER", "new_boxed", "build() returns new_boxed(fresh header, the assembled list of slices) - one call, its result is the return value",
+              A.site(), how=G.show(rt)[:160], why="%d new_boxed calls; return term %s" % (len(nb), G.show(rt)[:300]))
+    if len(nb) != 1:
+        return None
+    cbb, ct = nb[0]
+    E = SQ.Env(F, inst)
+    try:
+        segs, how_form = SQ.seq_of_operand(E, A, ct["args"][1], cbb)
+    except SQ.Unrec as e:
+        ctx.fail("BUILDER", "build:form", "the list of slices handed to new_boxed evaluates to a sequence description (SEQ)", A.site(), "UNRECOGNISED: %s" % e)
+        return None
+    ctx.ok("BUILDER", "build:form", "the list of slices handed to new_boxed evaluates to a sequence description (SEQ): %d segments" % len(segs), A.site(),
+           how="%s; nothing but push / extend / read-only views touches the vector (any other call taking it is UNRECOGNISED)" % how_form)
+    per_field = {}
+    end_at = []
+    foreign = []
+
+    def slot_of_terms(ts):
+        ks = set()
+        for t_ in ts:
+            ks |= {s_[2] for s_ in subterms(t_) if len(s_) == 3 and s_[0] == "fld" and s_[1] == arg(1) and isinstance(s_[2], int)}
+        return ks
+    for k, seg in enumerate(segs):
+        if seg[0] == "opt" and len(seg[1]) == 1:
+            c = seg[1][0]
+            fi = c[2][1][2] if c[0] == "cmp" and c[2][0] == "discr" and c[2][1][0] == "fld" and c[2][1][1] == arg(1) and len(c[2][1]) == 3 else None
+            if fi is not None:
+                slot = fld(arg(1), fi)
+                inner = seg[2]
+                good = CH.is_discr_fact(c, slot, 1) and len(inner) == 1 and inner[0][0] == "one" and _view_shape(inner[0][1]) and \
+                    _both_mention(inner[0][1], lambda s_: s_ == CH.payload_of(slot, 1) or s_ == ("dc", slot, 1))
+                per_field.setdefault(fi, []).append((k, "Option", good, SQ.show([seg])[:200]))
+                continue
+        if seg[0] == "each":
+            src = SQ.unref(SQ.strip_view(SQ.unref(seg[1])))
+            if src[0] == "fld" and src[1] == arg(1) and len(src) == 3:
+                fi = src[2]
+                inner = seg[2]
+                good = len(inner) == 1 and inner[0][0] == "one" and _view_shape(inner[0][1]) and \
+                    _both_mention(inner[0][1], lambda s_: s_ == SQ.ELEM)
+                per_field.setdefault(fi, []).append((k, "Vec", good, SQ.show([seg])[:200]))
+                continue
+        if seg[0] == "one" and any(is_adt_aggr(s_, end_adt_path) for s_ in subterms(seg[1])) and not slot_of_terms([seg[1]]):
+            end_at.append((k, _view_shape(seg[1])))
+            continue
+        ks = slot_of_terms([seg])
+        if len(ks) == 1:
+            per_field.setdefault(next(iter(ks)), []).append((k, "?", False, SQ.show([seg])[:200]))
+        else:
+            foreign.append(SQ.show([seg])[:160])
+    ctx.check(not foreign, "BUILDER", "build:foreign-push", "every element of the list is the byte view of one builder slot's tag or of the end tag", A.site(),
+              how="%d segments, all attributed" % len(segs), why="unattributed: %s" % foreign)
+    for i, f in sorted(tag_fields.items()):
+        ps = per_field.get(i, [])
+        kind = (F.ty(f["ty"]) or {}).get("adt_name")
+        ok = len(ps) == 1 and ps[0][2] and ps[0][1] == kind
+        ctx.check(ok, "BUILDER", "slot:" + f["name"], "slot `%s` contributes exactly one segment: the tag's as_bytes() view - %s" %
+                  (f["name"], "once per element, front to back (= call order)" if kind == "Vec" else "iff it is set"), A.site(),
+                  how=ps[0][3] if ps else "", why="%d segments for this slot (slot kind %s): %s" % (len(ps), kind, [(p_[1], p_[2], p_[3][:120]) for p_ in ps]))
+    extra = set(per_field) - set(tag_fields)
+    ctx.check(not extra, "BUILDER", "build:non-slot", "no non-tag field contributes an element", A.site(), how="none", why=str(extra))
+    ok_end = len(end_at) == 1 and end_at[0][1] and end_at[0][0] == len(segs) - 1
+    ctx.check(ok_end, "BUILDER", "end-tag", "the end tag (%s) is one unconditional element, exactly once, and the last of the list" % end_kind, A.site(),
+              how="last segment is the end tag view", why="end-tag segments at %s of %d" % ([e[0] for e in end_at], len(segs)))
+    return dict(inst=inst, pushes=[], per_field=per_field)
 
 
 def _view_shape(v):
+    if v[0] == "deref":
+        v = v[1]          # `*tag.as_bytes()` (Deref of BytesRef) is the same slice as `.as_ref()`: both return the field
     return v[0] == "fld" and v[2] == 0 and v[1][0] == "unwrap" and v[1][1][0] == "call" and "BytesRef" in str(v[1][1][1]) and "try_from" in str(v[1][1][1]) \
         and v[1][1][2][0][0] == "rawslice" and v[1][1][2][0][2][0] == "sizeofval"
 
 
-def array_form(ctx, F, A, tag_fields, end_adt_path, end_kind, header_check):
-    """build() = new_boxed(header, [e_1, .., e_n, Some(end)].into_iter().flatten().collect::<Vec<_>>().as_slice()) with
-    e_k = `if self.slot_k is Some(t) { Some(view(t)) } else { None }`.  Std contracts: array IntoIter yields the elements in
-    order, Flatten over Options yields exactly the Some payloads in that order, collect into a Vec keeps the order.
-    Returns None if build() is not of this form (the push/extend analysis applies), True after emitting the obligations."""
-    rt, _ = A.ret()
-    n = N(rt) if rt is not None else None
-    if not (n is not None and n[0] == "call" and cn(n[1]) == "multiboot2_common::boxed::new_boxed"):
-        return None
-    hdr, sl = n[2]
-    if not (sl[0] == "call" and cn(sl[1]) == "alloc::vec::Vec::as_slice" and sl[2][0][0] == "ref"):
-        return None
-    x = sl[2][0][1]
-    chain = []
-    while x[0] == "call" and len(x[2]) == 1:
-        chain.append(str(x[1]))
-        x = x[2][0]
-    if not (x[0] == "aggr" and x[1] == ("array",) and len(chain) == 3 and "Iterator>::collect" in chain[0] and "Iterator>::flatten" in chain[1]
-            and "IntoIterator for [" in chain[2] and "into_iter" in chain[2]):
-        return None
-    elems = list(x[2])
-    seen = {}
-    bad = []
-    for k, e in enumerate(elems[:-1]):
-        ok = False
-        if e[0] == "ite" and e[2][0] == "aggr" and e[2][1][:3] == ("adt", "core::option::Option", "Some") and e[3][0] == "aggr" and e[3][1][:3] == ("adt", "core::option::Option", "None"):
-            c = N(e[1])
-            view = e[2][2][0]
-            if c[0] == "cmp" and c[1] == "Eq" and c[3] == ("c", 1) and c[2][0] == "discr" and c[2][1][0] == "fld" and c[2][1][1] == arg(1):
-                fi = c[2][1][2]
-                slot = fld(arg(1), fi)
-                ok = fi in tag_fields and _view_shape(view) and any(s_ == CH.payload_of(slot, 1) or s_ == ("dc", slot, 1) for s_ in subterms(view))
-                if ok:
-                    seen.setdefault(fi, []).append(k)
-        if not ok:
-            bad.append((k, G.show(e)[:100]))
-    ctx.check(not bad, "BUILDER", "build:array-elements", "every element of the slice list is `Some(as_bytes view of the slot's tag)` iff that slot is set", A.site(),
-              how="%d conditional elements" % (len(elems) - 1), why="unrecognised elements: %s" % bad)
-    for i, f in sorted(tag_fields.items()):
-        ks = seen.get(i, [])
-        fty = F.ty(f["ty"]) or {}
-        ctx.check(len(ks) == 1 and fty.get("adt_name") == "Option", "BUILDER", "slot:" + f["name"],
-                  "slot `%s` is appended by exactly one element of the slice list - iff it is set" % f["name"], A.site(),
-                  how="array element #%s" % ks, why="%d elements for this slot (kind %s)" % (len(ks), fty.get("adt_name")))
-    last = elems[-1]
-    ok_end = last[0] == "aggr" and last[1][:3] == ("adt", "core::option::Option", "Some") and _view_shape(last[2][0]) and \
-        any(is_adt_aggr(s_, end_adt_path) for s_ in subterms(last[2][0]))
-    ctx.check(ok_end, "BUILDER", "end-tag", "the end tag (%s) is the last element of the slice list, unconditionally, exactly once" % end_kind, A.site(),
-              how="last array element is Some(end tag view)", why=G.show(last)[:200])
-    ctx.check(header_check(hdr), "BUILDER", "new_boxed", "build() returns new_boxed(fresh header, the collected slices in list order)", A.site(),
-              how=G.show(rt)[:160], why=G.show(rt)[:300])
-    return True
+def _view_ptr(v):
+    """(pointer the view starts at, the value whose size_of_val is its length): both must be the slot's tag"""
+    if v[0] == "deref":
+        v = v[1]
+    rs = v[1][1][2][0]
+    return (rs[1], rs[2][1])
+
+
+def _both_mention(v, pred):
+    p_, s_ = _view_ptr(v)
+    return any(pred(x) for x in subterms(p_)) and any(pred(x) for x in subterms(s_))
 
 
 def reachable_from(b, start):
